@@ -59,6 +59,9 @@ class PersistingDict(MutableMapping[str, VT]):
         if '__smpp_command__' in obj:
             return dict_to_smpp_message(obj)
         if 'orig_submit_sm' in obj:
+            for key in ('orig_submit_sm', 'last_response', 'last_receipt'):
+                if isinstance(obj.get(key), dict):
+                    obj[key] = dict_to_smpp_message(obj[key])
             return SegmentStatus(**obj)
         return obj
 
